@@ -182,11 +182,14 @@ func (b *Builder) Stmt(n *Node) *jen.Statement {
 
 func (b *Builder) applyAll(s *jen.Statement, calls []Call, from int) {
 	for i := from; i < len(calls); i++ {
-		var prev *Call
+		var prev, next *Call
 		if i > 0 {
 			prev = &calls[i-1]
 		}
-		b.apply(s, &calls[i], prev)
+		if i+1 < len(calls) {
+			next = &calls[i+1]
+		}
+		b.apply(s, &calls[i], prev, next)
 	}
 }
 
@@ -195,12 +198,14 @@ func isCaseHead(c *Call) bool {
 }
 
 // apply performs one call on s, in the form the policy picks.
-func (b *Builder) apply(s *jen.Statement, c *Call, prev *Call) {
+func (b *Builder) apply(s *jen.Statement, c *Call, prev, next *Call) {
 	fn := c.Fn
 	form := 0
 	if b.Forms != nil {
 		// 0 method, 1 Add(function form), 2 method Func variant, 3 Add(function Func variant)
-		canAdd := !(strings.HasPrefix(fn, "Block") && isCaseHead(prev)) && fn != "Add" && fn != "Do"
+		// The case-block format is triggered by a Block directly following Case / Default in the
+		// same statement: neither of the two may be wrapped into Add (documented adjacency).
+		canAdd := !(strings.HasPrefix(fn, "Block") && isCaseHead(prev)) && !(isCaseHead(c) && next != nil && strings.HasPrefix(next.Fn, "Block")) && fn != "Add" && fn != "Do"
 		canFunc := HasFunc(fn)
 		opts := []int{0}
 		if canAdd {
@@ -458,3 +463,30 @@ func Build(n *Node) jen.Code { return (&Builder{}).Code(n) }
 
 // BuildFile is the baseline build of a file.
 func BuildFile(f *File) *jen.File { return (&Builder{}).File(f) }
+
+// CallFunc performs call c through the package-level function `name`.
+func (b *Builder) CallFunc(name string, c *Call) *jen.Statement {
+	f, ok := Funcs[name]
+	if !ok {
+		panic("recipe: no package function " + name)
+	}
+	return b.invoke(reflect.ValueOf(f), name, c)[0].Interface().(*jen.Statement)
+}
+
+// CallMethod performs call c through the *Statement method `name` of s.
+func (b *Builder) CallMethod(s *jen.Statement, name string, c *Call) *jen.Statement {
+	m, ok := methodOf(reflect.ValueOf(s), name)
+	if !ok {
+		panic("recipe: *Statement has no method " + name)
+	}
+	return b.invoke(m, name, c)[0].Interface().(*jen.Statement)
+}
+
+// CallGroup performs call c through the *Group method `name` of g.
+func (b *Builder) CallGroup(g *jen.Group, name string, c *Call) *jen.Statement {
+	m, ok := methodOf(reflect.ValueOf(g), name)
+	if !ok {
+		panic("recipe: *Group has no method " + name)
+	}
+	return b.invoke(m, name, c)[0].Interface().(*jen.Statement)
+}
